@@ -360,6 +360,9 @@ func (x *FnExec) checkBackEdges(b *ssa.BasicBlock, st *State) {
 		reach := x.ctx.Define("R_back", SBool, And(st.reach, cond))
 		idx := predIndex(s, b)
 		env := x.loopEnv(s, st, func(p *ssa.Phi) Val { return x.value(p.Edges[idx]) })
+		if len(ls.Invariants) > 0 {
+			x.obligeSat(fmt.Sprintf("loop%d.backedge.reach", ord), "vacuity", "the end of the loop body is reachable under the invariant", reach)
+		}
 		for k, inv := range ls.Invariants {
 			x.oblige(fmt.Sprintf("loop%d.inv%d.preserve", ord, k+1), "loop-preserve", inv.Src, reach, env.EvalBool(inv.E))
 		}
@@ -829,7 +832,26 @@ func (x *FnExec) finish(args []Val) {
 	con := x.con
 	fn := x.fn
 	x.handleDeferredRecovery()
+	// one query per function: some contracted call is reachable but its continuation is not
+	if len(x.callReach) > 0 {
+		for _, cr := range x.callReach {
+			// (before is satisfiable) and (after is unsatisfiable) cannot be phrased as one sat query;
+			// check "after" and, only if it is unsat, whether "before" was reachable at all
+			x.obligeSat(cr.name, "vacuity-call", "the callee's postcondition does not contradict the state at the call", cr.after)
+			x.obls[len(x.obls)-1].AltQuery = x.queryPrefix() + "(assert " + cr.before + ")\n"
+		}
+	}
 	// postconditions at every return
+	// vacuity guard: if no return can be reached every postcondition holds for the wrong reason
+	// (contradictory assumed contracts, wrong havoc). Individual returns may be legitimately
+	// dead (defensive error paths), so the guard is on their disjunction.
+	if len(x.rets) > 0 {
+		var rr []Term
+		for _, r := range x.rets {
+			rr = append(rr, r.st.reach)
+		}
+		x.obligeSat("reach.some_return", "vacuity", "some return is reachable", Or(rr...))
+	}
 	for _, r := range x.rets {
 		env := x.envFor(con, fn, args, r.results, r.st.heaps, x.entry.heaps, x.entry.alloc)
 		x.addFreeVarNames(env)
@@ -848,6 +870,16 @@ func (x *FnExec) finish(args []Val) {
 		}
 		if !con.ModAll {
 			x.frameObligation("frame."+r.what, r.st.reach, x.entry.heaps, r.st.heaps, con.Modifies, x.envFor(con, fn, args, nil, x.entry.heaps, x.entry.heaps, x.entry.alloc), x.entry.alloc, true)
+		} else if len(con.Modifies) > 0 {
+			// modifies * together with ghost(...) entries: memory is unconstrained, the abstract
+			// state changes only where listed
+			gh := map[string]Term{}
+			for k, v := range r.st.heaps {
+				if strings.HasPrefix(k, "ghost:") && k != "ghost:panicking" && k != "ghost:panicTyp" {
+					gh[k] = v
+				}
+			}
+			x.frameObligation("ghostframe."+r.what, r.st.reach, x.entry.heaps, gh, con.Modifies, x.envFor(con, fn, args, nil, x.entry.heaps, x.entry.heaps, x.entry.alloc), x.entry.alloc, true)
 		}
 	}
 	// panics
